@@ -482,6 +482,58 @@ Proof.
   destruct (fold_left (stepi xd) se (fun _ => None) k); symmetry; exact Gen.
 Qed.
 
+(* ================= denotations are well-typed ================= *)
+Definition ro_wf (ro : ro_t) : Prop := forall i sp d, In (i, sp, d) ro -> length d = fst sp.
+Lemma good_ro_wf ro (s : sR) : wf_store s -> good ro s -> ro_wf ro.
+Proof. intros W G i sp d I. eapply wf_len; [exact W | apply (G _ _ _ I)]. Qed.
+
+Lemma soft_length sl d : length (soft sl d) = length d.
+Proof. unfold soft. rewrite rdiv_length; [reflexivity|]. rewrite map_length, rscal_length, map_length. reflexivity. Qed.
+Lemma ccl1_length lam d : length (ccl1 lam d) = length d.
+Proof. unfold ccl1. rewrite rdiv_length; [reflexivity|]. rewrite rscal_length, !map_length. reflexivity. Qed.
+
+Lemma den_length ro : ro_wf ro ->
+  forall o dom ran c F, den ro o dom ran c F -> forall d, length d = fst dom -> length (F d) = fst ran.
+Proof.
+  intros Hro o dom ran c F D.
+  induction D; intros d0 L0;
+    try (rewrite ?rscal_length; congruence);
+    try (rewrite ?map_length; congruence).
+  - (* leaf *) match goal with H : pf_clean _ _ _ _ |- _ => destruct H as (_ & Hf); apply (Hf d0 L0) end.
+  - apply repeat_length.
+  - eapply Hro; eassumption.
+  - rewrite rmul_length; [eapply Hro; eassumption|]. erewrite Hro by eassumption. congruence.
+  - rewrite rlin_length; [congruence|]. erewrite (Hro v sp dv) by eassumption. congruence.
+  - rewrite rlin_length; [congruence|]. erewrite (Hro v sp dv) by eassumption. congruence.
+  - rewrite rlin_length; [congruence|]. rewrite soft_length. reflexivity.
+  - rewrite rlin_length; [congruence|]. rewrite soft_length, rlin_length; [reflexivity|].
+    erewrite (Hro v sp dv) by eassumption. congruence.
+  - rewrite ccl1_length. congruence.
+  - rewrite ccl1_length, rlin_length; [congruence|]. erewrite (Hro v sp dv) by eassumption. congruence.
+  - rewrite radd_length; [apply IHD1; exact L0|]. rewrite IHD1, IHD2 by exact L0. reflexivity.
+  - rewrite radd_length; [apply IHD; exact L0|]. rewrite IHD by exact L0. symmetry. eapply Hro; eassumption.
+  - apply IHD1. apply IHD2. exact L0.
+  - rewrite rmul_length; [apply IHD1; exact L0|]. rewrite IHD1, IHD2 by exact L0. reflexivity.
+  - rewrite rscal_length. apply IHD. exact L0.
+  - apply IHD. rewrite rscal_length. exact L0.
+  - rewrite rscal_length. eapply Hro; eassumption.
+  - rewrite rmul_length; [eapply Hro; eassumption|]. rewrite IHD by exact L0. eapply Hro; eassumption.
+  - apply IHD. rewrite rmul_length; [exact L0|]. rewrite L0. symmetry. eapply Hro; eassumption.
+Qed.
+
+(* hence the side condition of [rows_agree] holds for every well-formed entry list *)
+Lemma ents_lengths ro doms rans xd (se : list sent) :
+  ro_wf ro -> Forall (ent_ok ro doms rans) se ->
+  (forall j dj, nth_error doms j = Some dj -> length (xd j) = fst dj) ->
+  forall p ri, In p se -> nth_error rans (en_row (fst p)) = Some ri ->
+               length (snd p (xd (en_col (fst p)))) = fst ri.
+Proof.
+  intros Hro HF Hx p ri Ip Er.
+  destruct (proj1 (Forall_forall _ _) HF p Ip) as (dj & ri' & Ec & Er' & HD).
+  rewrite Er in Er'. injection Er' as <-.
+  eapply den_length; [exact Hro | exact HD | apply (Hx _ _ Ec)].
+Qed.
+
 (* ================= Operator.__call__ of a ProductSpaceOperator ================= *)
 Lemma in_pspace_true (sps : list space) : forall (xs : list nat) (s : sR),
   length xs = length sps ->
